@@ -25,7 +25,7 @@ __CPROVER_requires(JWT_WITH_KEY(jwt))
 __CPROVER_requires(C09_BITS_RANGE(jwt))
 __CPROVER_requires(SPEC_ERRMSG_TERMINATED(jwt))
 __CPROVER_requires(OBS(alg, jwt->alg) && OBS(bits, jwt->key->bits) && OBS(kty, jwt->key->kty))
-__CPROVER_assigns(jwt->error, __CPROVER_object_whole(jwt->error_msg))
+__CPROVER_assigns(jwt->error, SPEC_ERRMSG_FRAME(jwt))
 __CPROVER_ensures(__CPROVER_return_value == 0 || __CPROVER_return_value == 1)
 /* accepted only at or above the floor ... */
 __CPROVER_ensures(__CPROVER_return_value == 0 ==> SPEC_HMAC_OK(jwt->alg, jwt->key->bits))
@@ -43,13 +43,114 @@ __CPROVER_requires(JWT_WITH_KEY(jwt))
 __CPROVER_requires(C09_BITS_RANGE(jwt))
 __CPROVER_requires(SPEC_ERRMSG_TERMINATED(jwt))
 __CPROVER_requires(OBS(alg, jwt->alg) && OBS(bits, jwt->key->bits) && OBS(kty, jwt->key->kty))
-__CPROVER_assigns(jwt->error, __CPROVER_object_whole(jwt->error_msg))
+__CPROVER_assigns(jwt->error, SPEC_ERRMSG_FRAME(jwt))
 __CPROVER_ensures(__CPROVER_return_value == 0 || __CPROVER_return_value == 1)
 __CPROVER_ensures(__CPROVER_return_value == 0 ==> SPEC_ASYM_OK(jwt->alg, jwt->key->bits))
 __CPROVER_ensures(SPEC_ASYM_OK(jwt->alg, jwt->key->bits) ==> __CPROVER_return_value == 0)
 __CPROVER_ensures((__CPROVER_return_value != 0 && SPEC_IS_ASYM(jwt->alg)) ==>
 		  (jwt->error == 1 && jwt->error_msg[0] != 0))
 __CPROVER_ensures(__CPROVER_return_value == 0 ==> jwt->error == __CPROVER_old(jwt->error))
+__CPROVER_ensures(SPEC_ERRMSG_TERMINATED(jwt))
+;
+
+/* jwt_sign: a provider operation is reached only after the matching check
+ * accepted THIS algorithm and THIS key; success implies the floor */
+int contract_C09_jwt_sign(jwt_t *jwt, char **out, unsigned int *len, const char *str, unsigned int str_len)
+__CPROVER_requires(JWT_WITH_KEY(jwt))
+__CPROVER_requires(C09_BITS_RANGE(jwt))
+__CPROVER_requires(SPEC_ERRMSG_TERMINATED(jwt))
+__CPROVER_requires(OBS(alg, jwt->alg) && OBS(bits, jwt->key->bits) && OBS(kty, jwt->key->kty))
+__CPROVER_requires(__CPROVER_is_fresh(out, sizeof(*out)) && __CPROVER_is_fresh(len, sizeof(*len)))
+__CPROVER_requires(OPS_TABLE_OBEYS(C09))
+__CPROVER_assigns(*out, *len, jwt->error, SPEC_ERRMSG_FRAME(jwt), OPS_GHOST_ASSIGNS_SIGN)
+__CPROVER_ensures(__CPROVER_return_value == 0 || __CPROVER_return_value == 1)
+__CPROVER_ensures(__CPROVER_return_value == 0 ==> (*len >= 1 && *len <= 1024 && __CPROVER_is_fresh(*out, *len)))
+__CPROVER_ensures(__CPROVER_return_value == 0 ==>
+		  (SPEC_HMAC_OK(jwt->alg, jwt->key->bits) || SPEC_ASYM_OK(jwt->alg, jwt->key->bits)))
+/* below the floor no provider operation was invoked at all */
+__CPROVER_ensures(!(SPEC_HMAC_OK(jwt->alg, jwt->key->bits) || SPEC_ASYM_OK(jwt->alg, jwt->key->bits)) ==>
+		  (g_op_hmac_calls == __CPROVER_old(g_op_hmac_calls) && g_op_sign_calls == __CPROVER_old(g_op_sign_calls)))
+/* "the call fails with an error instead" */
+__CPROVER_ensures(__CPROVER_return_value != 0 ==> (jwt->error != 0 && jwt->error_msg[0] != 0))
+__CPROVER_ensures(SPEC_ERRMSG_TERMINATED(jwt))
+;
+
+/* ====================== shape contracts (shared) ======================= */
+/* memory shape of the base64url helpers; their functional contracts are
+ * proved in C11 (same functions, stronger clauses).  B64_MAXLEN: lengths
+ * travel in int inside libjwt. */
+#define B64_MAXLEN 0x5ffffff0
+
+#define DECL_jwt_base64uri_decode(NAME, EXTRA) \
+void *NAME(const char *src, int *ret_len) \
+__CPROVER_requires(src == NULL || __CPROVER_r_ok(src, 1)) \
+__CPROVER_requires(ret_len == NULL || __CPROVER_w_ok(ret_len, sizeof(*ret_len))) \
+__CPROVER_assigns(ret_len != NULL: *ret_len) \
+__CPROVER_ensures(__CPROVER_return_value == NULL || \
+	(src != NULL && ret_len != NULL && *ret_len >= 1 && *ret_len <= B64_MAXLEN && \
+	 __CPROVER_is_fresh(__CPROVER_return_value, (size_t)*ret_len + 1))) \
+EXTRA
+DECL_jwt_base64uri_decode(contract_shape_jwt_base64uri_decode, );
+
+#define DECL_jwt_base64uri_encode(NAME, EXTRA) \
+int NAME(char **_dst, const char *plain, int plain_len) \
+__CPROVER_requires(__CPROVER_w_ok(_dst, sizeof(*_dst))) \
+__CPROVER_requires(plain_len >= 0 && plain_len <= B64_MAXLEN) \
+__CPROVER_requires(plain_len == 0 || __CPROVER_r_ok(plain, plain_len)) \
+__CPROVER_assigns(*_dst) \
+__CPROVER_ensures(__CPROVER_return_value == -1 || \
+	(__CPROVER_return_value >= 0 && __CPROVER_return_value <= 4 * ((plain_len + 2) / 3) && \
+	 ((__CPROVER_return_value == 0) == (plain_len == 0)) && \
+	 __CPROVER_is_fresh(*_dst, (size_t)__CPROVER_return_value + 1) && \
+	 (*_dst)[__CPROVER_return_value] == 0)) \
+__CPROVER_ensures(__CPROVER_return_value == -1 ==> *_dst == __CPROVER_old(*_dst)) \
+EXTRA
+DECL_jwt_base64uri_encode(contract_shape_jwt_base64uri_encode, );
+
+/* jwt_strcmp (jwt-memory.c): constant-time comparison; 0 iff equal.  The
+ * "equal" direction is stated through the ghost index g_str_k (any index),
+ * position 0 and the length. */
+extern size_t g_str_k;
+#define DECL_jwt_strcmp(NAME, EXTRA) \
+int NAME(const char *str1, const char *str2) \
+__CPROVER_requires(str1 != NULL && str2 != NULL) \
+__CPROVER_assigns() \
+EXTRA
+DECL_jwt_strcmp(contract_shape_jwt_strcmp, );
+
+/* ---- C09 chain: _verify_sha_hmac, jwt_verify_sig ---- */
+static int _verify_sha_hmac(jwt_t *jwt, const char *head, unsigned int head_len, const char *sig);
+
+#define C09_FLOOR_OK(jwt) (SPEC_HMAC_OK((jwt)->alg, (jwt)->key->bits) || SPEC_ASYM_OK((jwt)->alg, (jwt)->key->bits))
+#define C09_NO_OPS_CALLED (g_op_hmac_calls == __CPROVER_old(g_op_hmac_calls) && \
+	g_op_sign_calls == __CPROVER_old(g_op_sign_calls) && g_op_verify_calls == __CPROVER_old(g_op_verify_calls))
+
+int contract_C09__verify_sha_hmac(jwt_t *jwt, const char *head, unsigned int head_len, const char *sig)
+__CPROVER_requires(JWT_WITH_KEY(jwt))
+__CPROVER_requires(C09_BITS_RANGE(jwt))
+__CPROVER_requires(SPEC_ERRMSG_TERMINATED(jwt))
+__CPROVER_requires(OBS(alg, jwt->alg) && OBS(bits, jwt->key->bits) && OBS(kty, jwt->key->kty))
+__CPROVER_requires(sig != NULL)
+__CPROVER_requires(OPS_TABLE_OBEYS(C09))
+__CPROVER_assigns(jwt->error, SPEC_ERRMSG_FRAME(jwt), OPS_GHOST_ASSIGNS)
+__CPROVER_ensures(__CPROVER_return_value == 0 ==> C09_FLOOR_OK(jwt))
+__CPROVER_ensures(!C09_FLOOR_OK(jwt) ==> C09_NO_OPS_CALLED)
+__CPROVER_ensures(SPEC_ERRMSG_TERMINATED(jwt))
+;
+
+jwt_t *contract_C09_jwt_verify_sig(jwt_t *jwt, const char *head, unsigned int head_len, const char *sig_b64)
+__CPROVER_requires(JWT_WITH_KEY(jwt))
+__CPROVER_requires(C09_BITS_RANGE(jwt))
+__CPROVER_requires(SPEC_ERRMSG_TERMINATED(jwt))
+__CPROVER_requires(OBS(alg, jwt->alg) && OBS(bits, jwt->key->bits) && OBS(kty, jwt->key->kty))
+__CPROVER_requires(sig_b64 != NULL)
+__CPROVER_requires(OPS_TABLE_OBEYS(C09))
+__CPROVER_assigns(jwt->error, SPEC_ERRMSG_FRAME(jwt), OPS_GHOST_ASSIGNS)
+__CPROVER_ensures(__CPROVER_return_value == jwt)
+/* verification succeeds (flag clear) only at or above the floor */
+__CPROVER_ensures((__CPROVER_old(jwt->error) == 0 && jwt->error == 0) ==> C09_FLOOR_OK(jwt))
+/* below the floor: an error WITH a message, and no provider was consulted */
+__CPROVER_ensures(!C09_FLOOR_OK(jwt) ==> (jwt->error != 0 && jwt->error_msg[0] != 0 && C09_NO_OPS_CALLED))
 __CPROVER_ensures(SPEC_ERRMSG_TERMINATED(jwt))
 ;
 #endif
